@@ -43,6 +43,10 @@ class ArrayCoherence(flow.Flow):
         self.findings = []
         self.checked = 0
         self.modevars = {}
+        import versions as _versions
+        _versions.register_locals(fn)
+        # locals defined once (`const uint16_t n = stripLengths.size();`) stand for their initialiser in bounds and sizes
+        self.render = F.expander(fn)[0]
 
     def on_decl(self, v, st):
         i = v.get("init")
@@ -71,7 +75,7 @@ class ArrayCoherence(flow.Flow):
         if k == "For" and is_node(s.get("cond")) and s["cond"]["k"] == "Binary" and s["cond"]["op"] in ("<", "!=", "<="):
             l, r = _peel(s["cond"]["l"]), s["cond"]["r"]
             if is_node(l) and l["k"] == "Ref":
-                info = (l["id"], show(_strip(r)), r, s["cond"]["op"])
+                info = (l["id"], self.render(_strip(r)), r, s["cond"]["op"])
         self.loops.append(info)
         try:
             return super().loop(s, st)
@@ -84,7 +88,7 @@ class ArrayCoherence(flow.Flow):
         k = n["k"]
         if k == "Call" and n.get("short") in ("resize", "SetSize", "assign") and is_node(n.get("recv")) and n.get("args"):
             c = show(_peel(n["recv"]))
-            sz = show(_strip(n["args"][0]))
+            sz = self.render(_strip(n["args"][0]))
             d = set(flow.deps_of(n["args"][0])) | {("cz", c)}
             st = frozenset(f for f in st if not (f[0] == "Z" and f[1] == c))
             return st | {("Z", c, sz, frozenset(d))}
@@ -168,7 +172,7 @@ class ArrayCoherence(flow.Flow):
             return
         self.checked += 1
         c = show(cont)
-        ln = show(_strip(n["args"][1]))
+        ln = self.render(_strip(n["args"][1]))
         sizes = self._sizes(st, c)
         ok = any(s != "+pushed" and (s == ln or ("(%s * " % s) in ln or (" * %s)" % s) in ln or _same_modulo_cast(s, ln)) for s in sizes) \
             or ("%s.size()" % c) in ln or flow.has_guard(st, "%s.empty()" % c, False)
